@@ -62,6 +62,7 @@ type Options struct {
 	Fuel       int64 // tick limit (0 = 1<<40)
 	Prefix     []int // choices to replay; afterwards alternative 0 is taken
 	YieldTick  bool  // Tick sites are scheduler yield points
+	YieldMod   int   // with YieldTick: only every YieldMod-th tick of each thread is a yield point (0/1 = every tick)
 	MapChoice  bool  // MapSeq order is a choice (else canonical)
 	FixedSched bool  // scheduling points always take the canonical alternative and are not recorded as choices
 	// OnYield, if set, is called at every scheduling point before the choice
@@ -82,6 +83,7 @@ type thread struct {
 	state   tstate
 	gate    chan struct{}
 	blockOn string
+	ticks   int
 	// rendezvous payload
 	val any
 	ok  bool
@@ -290,7 +292,21 @@ func Tick() {
 		return
 	}
 	if e.opt.YieldTick {
-		e.yield("tick")
+		if e.opt.YieldMod > 1 {
+			e.mu.Lock()
+			me := e.cur
+			y := false
+			if me != nil {
+				me.ticks++
+				y = me.ticks%e.opt.YieldMod == 0
+			}
+			e.mu.Unlock()
+			if y {
+				e.yield("tick")
+			}
+		} else {
+			e.yield("tick")
+		}
 	}
 	e.mu.Lock()
 	if e.dead {
@@ -390,9 +406,10 @@ func (e *exec) switchAwayLocked(me *thread) {
 		e.mu.Unlock()
 		panic(&Abort{"deadlock"})
 	}
-	// blocking switches are free (no preemption): all alternatives cost 0.
-	cost := make([]int8, len(en))
-	next := en[e.chooseLocked(len(en), "sched", cost)]
+	// at a blocking switch the canonical successor (lowest thread id) is free; choosing another
+	// enabled thread counts as one deviation (otherwise every blocking operation of a program with
+	// three or more threads would double the schedule space regardless of the bound).
+	next := en[e.chooseLocked(len(en), "sched", nil)]
 	e.cur = next
 	next.gate <- struct{}{}
 	e.mu.Unlock()
@@ -456,8 +473,7 @@ func Go(f func()) {
 				e.mu.Unlock()
 				return
 			}
-			cost := make([]int8, len(en))
-			next := en[e.chooseLocked(len(en), "sched", cost)]
+			next := en[e.chooseLocked(len(en), "sched", nil)]
 			e.cur = next
 			next.gate <- struct{}{}
 			e.mu.Unlock()
